@@ -543,7 +543,9 @@ func posClause(after int) string {
 	case -1:
 		return ""
 	case 0:
-		return " first"
+		// first NON-KEY position: the model keeps the key column first (a column placed before pk changes
+		// the full column order only, which dolt_conflicts_resolve compares but the row merger ignores)
+		return " after pk"
 	}
 	return fmt.Sprintf(" after c%d", after)
 }
